@@ -363,6 +363,11 @@ class SoftFloat(object):
     __rmul__ = __mul__
     def __truediv__(self, o): return self._n(self.v / self._c(o))
     def __lt__(self, o): return self.v < self._c(o)
+    def __gt__(self, o): return self.v > self._c(o)
+    def __le__(self, o): return self.v <= self._c(o)
+    def __ge__(self, o): return self.v >= self._c(o)
+    def __neg__(self): return self._n(-self.v)
+    def __abs__(self): return self._n(abs(self.v))
 
     def __pow__(self, n):
         r = self
@@ -396,35 +401,38 @@ class Rounding(Result):
             return r
         z3.FPRef.__pow__ = fp_pow
         try:
-            v = self._variance_on(fx)
-            if not isinstance(v, z3.FPRef):
-                raise TypeError('variance returned %r' % (v,))
+            # data-dependent branches of the closures (a clamp such as max(v, 0.0), a guard on the sign) are explored path by path
+            paths, complete = z3x.explore(lambda: self._variance_on(fx), q, max_paths=16)
+            paths = [(pc, z3.FPVal(float(v), F) if isinstance(v, (int, float)) else v) for pc, v in paths]
+            if not complete or not all(isinstance(v, z3.FPRef) for _, v in paths):
+                raise TypeError('variance returned %r' % ([v for _, v in paths][:2],))
         except Exception as e:  # noqa
             return self.finish(q, bad, ['closure not executable on FP terms: %r' % (e,)])
         wx = [z3.fpFPToFP(rm, x, W) for x in fx]
         mean = sum(wx[1:], wx[0]) / z3.FPVal(n, W)
         pop = self.p.get('op') == 'fvariance'
         ref = sum([(x - mean) * (x - mean) for x in wx[1:]], (wx[0] - mean) * (wx[0] - mean)) / z3.FPVal(n if pop else n - 1, W)
-        vw = z3.fpFPToFP(rm, v, W)
-        cons = []
+        base = []
         for x in fx:
-            cons += [z3.fpGEQ(x, z3.FPVal(16, F)), z3.fpLT(x, z3.FPVal(32, F))]
-        cons.append(z3.fpGEQ(ref, z3.FPVal(1.0, W)))
-        cons.append(z3.Or(z3.fpGT(z3.fpAbs(vw - ref), z3.FPVal(0.25, W) * ref), z3.fpIsNaN(vw)))
-        r, m = q.check('rounding FPSort(%d,%d) n=%d' % (eb, sb, n), cons, timeout_s=self.p.get('timeout', 300), logic='QF_FP')
-        if r == 'sat':
-            vals = []
-            for x in fx:
-                rv = m.eval(z3.fpToReal(x), model_completion=True)
-                rv = z3.simplify(rv)
-                vals.append(str(Fraction(rv.numerator_as_long(), rv.denominator_as_long())))
-            rp = self.replay([dict(vals=vals, eb=eb, sb=sb, op=self.p.get('op'))])
-            if rp['reproduced']:
-                bad.append(dict(problem='relative error above n*kappa*u', format=[eb, sb], replay=dict(vals=vals, eb=eb, sb=sb, op=self.p.get('op')), **rp['detail']))
-            else:
-                unknown.append('model does not reproduce in software floating point: %s' % rp['detail'])
-        elif r != 'unsat':
-            unknown.append('solver answered %s' % r)
+            base += [z3.fpGEQ(x, z3.FPVal(16, F)), z3.fpLT(x, z3.FPVal(32, F))]
+        base.append(z3.fpGEQ(ref, z3.FPVal(1.0, W)))
+        for pi, (pc, v) in enumerate(paths):
+            vw = z3.fpFPToFP(rm, v, W)
+            cons = base + list(pc) + [z3.Or(z3.fpGT(z3.fpAbs(vw - ref), z3.FPVal(0.25, W) * ref), z3.fpIsNaN(vw))]
+            r, m = q.check('rounding FPSort(%d,%d) n=%d path %d' % (eb, sb, n, pi), cons, timeout_s=self.p.get('timeout', 300), logic='QF_FP')
+            if r == 'sat':
+                vals = []
+                for x in fx:
+                    rv = m.eval(z3.fpToReal(x), model_completion=True)
+                    rv = z3.simplify(rv)
+                    vals.append(str(Fraction(rv.numerator_as_long(), rv.denominator_as_long())))
+                rp = self.replay([dict(vals=vals, eb=eb, sb=sb, op=self.p.get('op'))])
+                if rp['reproduced']:
+                    bad.append(dict(problem='relative error above n*kappa*u', format=[eb, sb], replay=dict(vals=vals, eb=eb, sb=sb, op=self.p.get('op')), **rp['detail']))
+                else:
+                    unknown.append('model does not reproduce in software floating point: %s' % rp['detail'])
+            elif r != 'unsat':
+                unknown.append('solver answered %s' % r)
         return self.finish(q, bad, unknown, dict(encoded=['rxsci/math/variance.py accumulate + output map executed on z3 FP terms through the real scan/map operators']))
 
     def replay(self, args):
